@@ -26,7 +26,7 @@ CASE_TIMEOUT = 900
 def bounds(tier):
     return {"positions": "every 2nd lattice point quick / all thorough (lattice = quarter of the finest cell)",
             "schedules": "every order of <= %d tasks of one deviating per-level pool call, lazy and eager, at the position meeting most boxes" % (4 if tier == "thorough" else 3),
-            "field_lists": ["A C G", "G", "all", "G A (not header order)"], "limit": "None, 0..finest", "split_template_boxes": [1, 2, 3, 4, 5, 6, 7]}
+            "field_lists": ["A C G", "G", "all", "G A (not header order)", "C G A (rotation)"], "limit": "None, 0..finest", "split_template_boxes": [1, 2, 3, 4, 5, 6, 7]}
 
 
 def cases(tier, seed):
@@ -215,7 +215,7 @@ def run_case(case, workdir):
         # every lattice point also for the non-dyadic geometry (faces and centres are where the box bounds of the Header lie);
         # with stride 2 the cases alternate between the even and the odd points
         positions = list(range(0, N + 1))[(dh % 2 if case["stride"] > 1 else 0)::case["stride"]]
-        lists = [["A", "C", "G", "H"], ["G"], ["all"], ["G", "A"]]
+        lists = [["A", "C", "G", "H"], ["G"], ["all"], ["G", "A"], ["C", "G", "A"]]
     k = 0
     for m in positions:
         pos = sm.pos_of(m)
@@ -223,13 +223,25 @@ def run_case(case, workdir):
         for fl, limit in combos:
             L = nlev - 1 if limit is None else limit
             k += 1
-            out = os.path.join(workdir, "slice%d" % k)
+            # outputs are NOT fresh: two of three requests write to ONE explicit path that holds the result of the request
+            # before; every third one leaves the name to the tool (the default name says little about the request, so several
+            # requests of a case share it) - what is written must be the answer to THIS request
+            by_default = (k % 3 == 0)
+            out = None if by_default else os.path.join(workdir, "slice_out")
+            holder = {}
+
+            def one_slice():
+                mo_ = Mandoline(path, fields=fl, limit_level=limit, serial=bool(k % 2), verbose=0)
+                mo_.slice(normal=n, pos=pos, outfile=out, fformat="plotfile")
+                holder["default"] = mo_.default_output_path() if by_default else None
             with vpool.controlled():
                 with poisoned(MODS, k % 2):
-                    st, val = call(lambda: Mandoline(path, fields=fl, limit_level=limit, serial=bool(k % 2), verbose=0).slice(
-                        normal=n, pos=pos, outfile=out, fformat="plotfile"))
+                    st, val = call(one_slice)
+            if by_default and st != "exc":
+                out = holder["default"]
             empty_levels = [lv for lv in range(L + 1) if not meets(ref, lv, n, m, sm)]
-            sub = {"normal": n, "m": m, "pos": pos, "fields": fl, "limit_level": limit, "levels_not_met": empty_levels}
+            sub = {"normal": n, "m": m, "pos": pos, "fields": fl, "limit_level": limit, "levels_not_met": empty_levels,
+                   "output": "default name" if by_default else "explicit path that holds the previous result"}
             rec.exe([dh, m, fl, limit])
             if st == "exc":
                 rec.fail("raised", sub, exc_text(val))
@@ -240,7 +252,6 @@ def run_case(case, workdir):
             if case["kind"] == "split":
                 nfiles = len([f for f in os.listdir(os.path.join(out, "Level_0")) if f.startswith("Cell_D")])
                 rec.outcome("files=%d" % nfiles)
-            shutil.rmtree(out, ignore_errors=True)
     # the command line entry point (plotfile format) must write what the API writes
     if case["kind"] == "mesh":
         import amr_kitchen.mandoline.cli as mcli
